@@ -14,7 +14,7 @@ use std::cell::Cell;
 use std::collections::VecDeque;
 use std::sync::{Condvar, Mutex, MutexGuard};
 
-pub const MAX_THREADS: usize = 24;
+pub const MAX_THREADS: usize = 96;
 const CONFIRM_ROUNDS: u32 = 8;
 const TAIL: usize = 96;
 
@@ -420,8 +420,19 @@ pub fn current() -> Option<usize> {
 }
 
 pub fn with_inner<R>(f: impl FnOnce(&mut Inner) -> R) -> Option<R> {
-    let mut g = lock();
-    g.as_mut().map(f)
+    // try_lock: the caller may be a panic hook running on a thread that
+    // already holds the lock
+    for _ in 0..2000 {
+        match INNER.try_lock() {
+            Ok(mut g) => return g.as_mut().map(f),
+            Err(std::sync::TryLockError::Poisoned(p)) => {
+                let mut g = p.into_inner();
+                return g.as_mut().map(f);
+            }
+            Err(std::sync::TryLockError::WouldBlock) => std::thread::sleep(std::time::Duration::from_micros(50)),
+        }
+    }
+    None
 }
 
 fn wait_mailbox<'a>(
